@@ -143,13 +143,24 @@ pub mod rust_log_ref_finder
                     let mut log_message_span: Option<pest::Span> = None;
                     let rule_ref_container_span = rule_l2.as_span();
                     let mut kvp_spans: Vec<(pest::Span, Option<pest::Span>)> = Vec::new();
+                    let mut target_present = false;
+                    let mut first_arg_after_target_span: Option<pest::Span> = None;
 
                     for rule in rule_l2.into_inner()
                     {
                         match rule.as_rule()
                         {
+                            Rule::target_arg =>
+                            {
+                                target_present = true;
+                            },
                             Rule::string_literal =>
                             {
+                                if first_arg_after_target_span.is_none()
+                                {
+                                    first_arg_after_target_span = Some(rule.as_span());
+                                }
+
                                 log_message_span = match rule.into_inner().next()
                                 {
                                     None => continue,
@@ -158,6 +169,11 @@ pub mod rust_log_ref_finder
                             },
                             Rule::kvp_args =>
                             {
+                                if first_arg_after_target_span.is_none()
+                                {
+                                    first_arg_after_target_span = Some(rule.as_span());
+                                }
+
                                 let kvps = rule.into_inner();
 
                                 for kvp in kvps
@@ -264,11 +280,22 @@ pub mod rust_log_ref_finder
                                 insertion_suffix = Some("; ".to_string());
                             }
 
-                            code_pos = Some(CodePosition::new(
-                                rule_ref_container_span.start() + 1,
-                                rule_ref_container_span.start_pos().line_col().0,
-                                rule_ref_container_span.start_pos().line_col().1 + 1,
-                            ));
+                            code_pos = match (target_present, first_arg_after_target_span)
+                            {
+                                /* The log macros only accept key-value pairs after the target
+                                 * argument, so the new pair goes in front of whatever follows it.
+                                 */
+                                (true, Some(span)) => Some(CodePosition::new(
+                                    span.start(),
+                                    span.start_pos().line_col().0,
+                                    span.start_pos().line_col().1,
+                                )),
+                                _ => Some(CodePosition::new(
+                                    rule_ref_container_span.start() + 1,
+                                    rule_ref_container_span.start_pos().line_col().0,
+                                    rule_ref_container_span.start_pos().line_col().1 + 1,
+                                )),
+                            };
                         }
                     }
                     else
